@@ -102,8 +102,51 @@ def wire_forms(m):
     return out
 
 
+def restate_check(m):
+    """serialise, change the message (a nested container in place; model_copy(update=…); attribute assignment), serialise
+    again: model_dump_json must describe the state model_dump describes.  Works on a deep copy that carries over whatever
+    the first serialisation left on the object."""
+    from chuk_mcp.protocol import fast_json
+
+    if isinstance(m, dict) or not hasattr(m, "model_dump_json"):
+        return None
+    out = {}
+
+    def agree(x):
+        return J.of_py(fast_json.loads(x.model_dump_json(exclude_none=True))) == J.of_py(x.model_dump(exclude_none=True))
+
+    try:
+        m.model_dump_json(exclude_none=True)
+        c = copy.deepcopy(m)
+        touched = False
+        for k in ("params", "result", "error"):
+            v = getattr(c, k, None)
+            if isinstance(v, dict):
+                v["edited-in-place"] = {"n": [None, 2]}
+                touched = True
+            elif isinstance(v, list):
+                v.append("edited-in-place")
+                touched = True
+        if touched:
+            out["nested"] = agree(c)
+        if hasattr(m, "model_copy") and getattr(m, "id", None) is not None:
+            c2 = m.model_copy(update={"id": "other-id"})
+            out["model_copy"] = agree(c2) and fast_json.loads(c2.model_dump_json(exclude_none=True)).get("id") == "other-id"
+        c3 = copy.deepcopy(m)
+        if getattr(c3, "method", None) is not None:
+            c3.method = "reassigned"
+            out["setattr"] = agree(c3)
+    except Exception as ex:  # noqa: BLE001
+        out["exc"] = type(ex).__name__
+    return out
+
+
 def observe(emitted, raised=None):
     o = {"raised": raised, "emitted": [wire_forms(m) for m in emitted]}
+    for e, m in zip(o["emitted"], emitted):
+        r = restate_check(m)
+        if r:
+            e["restate"] = r
     if _EMITTED_HOOK is not None:
         _EMITTED_HOOK(list(emitted))  # after the wire forms were taken
     return o
@@ -1221,6 +1264,7 @@ class InnerRaised(Exception):
 DIRECT_INNERS = ["direct-request", "direct-notification", "direct-response", "direct-error", "direct-legacy-request",
                  "direct-legacy-notification", "direct-legacy-response", "direct-legacy-error", "validated-request",
                  "validated-legacy-response"]
+CHANGED_INNERS = ["changed-after-dump", "copied-after-dump", "assigned-after-dump"]
 CREATED_INNERS = ["request", "notification", "response", "error", "legacy-request", "legacy-response", "legacy-error", "dict",
                   "parsed-request", "parsed-notification", "parsed-response", "parsed-error", "dict-extra", "converted", "wrapped"]
 # forms only the stdio writer accepts (HTTP / SSE log an error and send nothing)
@@ -1292,6 +1336,18 @@ def _inner(a):
         return [_DumpOnly(d_create_request(a)[0])]
     if kind == "list":
         return [[d_create_request(a)[0].model_dump(exclude_none=True), d_create_notification(a)[0].model_dump(exclude_none=True)]]
+    if kind in ("changed-after-dump", "copied-after-dump", "assigned-after-dump"):
+        msg = m.create_request(method_of(a), params if params is not None else {"progress": 1}, id=idv)
+        msg.model_dump_json(exclude_none=True)
+        msg.model_dump_json()
+        if kind == "changed-after-dump":
+            msg.params["progress"] = 2
+            msg.params.setdefault("nested", {})["edited"] = [None]
+            return [msg]
+        if kind == "copied-after-dump":
+            return [msg.model_copy(update={"id": "copy-of-" + str(idv)})]
+        msg.method = "changed/" + str(msg.method)
+        return [msg]
     if kind == "big-between-small":  # one message far above every buffer (64 KiB chunks) between two small ones
         big = "x\u00e9" * (int(a.get("n", 100_000)) // 2)
         return [m.create_request(method_of(a), {"i": 1}, id=1), m.create_request(method_of(a), {"blob": big, "n": None}, id=idv if idv is not None else 2),
@@ -1377,12 +1433,18 @@ def d_stdio_writer(a):
         exc = type(ex).__name__
     data = b"".join(chunks)
     lines = data.split(b"\n")
-    out = []
+    out, unparsable = [], 0
+    import json as stdjson
     for ln in lines:
         if ln:
-            v = fast_json.loads(ln.decode("utf-8"))
+            try:
+                v = stdjson.loads(ln.decode("utf-8"))  # the harness's own reader, not the library's
+            except ValueError:
+                unparsable += 1
+                continue
             out += v if isinstance(v, list) else [v]
-    return out, exc, {"bytes_end_nl": data.endswith(b"\n") if data else None, "lines": len([ln for ln in lines if ln])}
+    return out, exc, {"bytes_end_nl": data.endswith(b"\n") if data else None, "lines": len([ln for ln in lines if ln]),
+                      "sent": len(msgs), "unparsable_lines": unparsable}
 
 
 def _http_capture(mod, handler_factory):
@@ -1635,8 +1697,31 @@ def run_case(case):
                 os.environ[k] = v
 
 
+def history_prelude():
+    """what may have happened earlier in the same process: encodes with non-default options through every entry point"""
+    import io
+    from chuk_mcp.protocol import fast_json
+
+    doc = {"b": [1, {"a": None}], "a": "x"}
+    for kw in ({"indent": 2}, {"sort_keys": True}, {"indent": 4, "sort_keys": True, "default": str}, {"separators": (",", ":")}, {"ensure_ascii": False}):
+        try:
+            fast_json.dumps(doc, **kw)
+            fast_json.dump(doc, io.StringIO(), **kw)
+        except Exception:  # noqa: BLE001
+            pass
+    try:
+        msg = _msg_mod().create_request("history", {"k": [None]}, id=1)
+        msg.model_dump_json(indent=2)
+        msg.model_dump_json(exclude_none=True, indent=2)
+        _msg_mod().JSONRPCMessage.create_response(1, {"r": 1}).model_dump_json(indent=2)
+    except Exception:  # noqa: BLE001
+        pass
+
+
 def _run_repeated(case):
     global _EMITTED_HOOK
+    if case.get("history"):
+        history_prelude()
     k = int(case.get("repeat_mutate") or 0)
     keep, first = [], None
     for _ in range(k):
